@@ -496,18 +496,18 @@ def gather(ctx):
     rng = ctx.rng
     q = ctx.quick()
     pops = []
-    pops += list(popgen.plain(rng, 20 if q else 250))
-    pops += list(popgen.shape(rng, 28 if q else 350))
-    pops += list(popgen.occupancy(rng, 50 if q else 600))
-    pops += list(popgen.affine(rng, 26 if q else 350))
-    pops += list(popgen.cascade(rng, 10 if q else 120))
-    base = list(popgen.shape(rng, 8 if q else 100)) + list(popgen.occupancy(rng, 22 if q else 250))
+    pops += list(popgen.plain(rng, 20 if q else 80))
+    pops += list(popgen.shape(rng, 28 if q else 110))
+    pops += list(popgen.occupancy(rng, 50 if q else 200))
+    pops += list(popgen.affine(rng, 26 if q else 100))
+    pops += list(popgen.cascade(rng, 10 if q else 40))
+    base = list(popgen.shape(rng, 8 if q else 30)) + list(popgen.occupancy(rng, 22 if q else 90))
     pops += list(popgen.with_spacetime(rng, base))
     pops += popgen.accelerators()
-    for _ in range(16 if q else 200):
+    for _ in range(16 if q else 64):
         y, meta = specgen_metrics.gen(rng)
         pops.append({"yaml": y, "kind": "generated-metrics", "arch": True, "syms": {}, "meta": meta})
-    pops += list(popgen.compute_only(rng, 4 if q else 50))
+    pops += list(popgen.compute_only(rng, 4 if q else 16))
     return pops
 
 
@@ -601,7 +601,7 @@ def check_specs(ctx, items, tbs_of, tag, stats):
     (item, [(tb, text or None, error or None)])."""
     import multiprocessing
     t0 = time.time()
-    n_targeted = 2 if ctx.quick() else 6
+    n_targeted = 2 if ctx.quick() else 4
     jobs = [(it["yaml"], it.get("arch", False), tbs_of(it), n_targeted, ctx.seed * 100003 + i) for i, it in enumerate(items)]
     nproc = max(1, min(8, vlib.NPROC // 2))
     if nproc > 1 and len(jobs) > 8:
@@ -773,14 +773,15 @@ def _first_top_level(text, needle):
 
 
 def graphics_flags(default_text, variant_text):
-    """Structural description of how two tie-break variants differ around the canvas: computed from
-    the emitted texts alone.  True when the variant creates the canvas AFTER a top-level dynamic
-    re-partitioning (Tensor.fromFiber ...) while networkx's order creates it before."""
-    def after(text):
-        c = _first_top_level(text, "createCanvas(")
-        f = _first_top_level(text, "Tensor.fromFiber(")
-        return c is not None and f is not None and f < c
-    return {"canvas_created_after_dynamic_partitioning": after(variant_text) and not after(default_text)}
+    """Structural description of how two tie-break variants differ around the canvas, computed from
+    the emitted texts alone: True when both create a canvas but on different versions of the tensors
+    (the createCanvas(...) argument lists differ), i.e. the Graphics node was translated at another
+    point of the partitioning sequence."""
+    def canvas_line(text):
+        i = _first_top_level(text, "createCanvas(")
+        return None if i is None else text.split("\n")[i].strip()
+    a, b = canvas_line(default_text), canvas_line(variant_text)
+    return {"canvas_arguments_differ": a is not None and b is not None and a != b}
 
 
 def behaviour_checks(ctx, outcomes, tag, stats):
@@ -856,7 +857,7 @@ def run(ctx):
     stats["by_tiebreak"] = collections.defaultdict(int)
     stats["by_kind"] = collections.defaultdict(int)
     items = gather(ctx)
-    k = 2 if ctx.quick() else 5
+    k = 2 if ctx.quick() else 4
     tbs = {id(it): tiebreaks(ctx, k) for it in items}
     outcomes = check_specs(ctx, items, lambda it: tbs[id(it)], "c10", stats)
     behaviour_checks(ctx, outcomes, "c10x", stats)
@@ -876,7 +877,7 @@ def run(ctx):
                 "possible, so that the hoist pass has work), %d more (seeded random Kahn, LIFO, FIFO, loops-first, loops-last) and up to %d targeted flips of statement pairs "
                 "that share a name but are not ordered by the graph; per Einsum and tie-break one kernel evaluation of the checkers on (graph, pre-hoist list, post-hoist list); "
                 "pruning checked once per Einsum; non-trivial = the hoist pass moved at least one statement; up to %d distinct texts per specification run through da and executed"
-                % (k - 1, 2 if ctx.quick() else 6, MAX_EXECUTED_VARIANTS),
+                % (k - 1, 2 if ctx.quick() else 4, MAX_EXECUTED_VARIANTS),
         "samples": [sample] if sample else [],
         "trusted_base": ["Coq 8.16.1 kernel + VM (vm_compute)", "tools/props/c10.py: interning of repr(node), reading of loop order from Program.get_loop_order(), "
                          "the instrumented replica of HiFiber.__translate (its output is compared with the real tree on every run)",
